@@ -150,6 +150,19 @@ def rule_invariant(ctx, repo):
               "group alteration no longer goes through Model.alter (vin/v would diverge)", g.W())
 
 
+def tconst_gates(repo):
+    """[(what, store statement, extra gating conditions)] of the dae.Tf / TDS.Teye writes in Model.set"""
+    s = F.method(repo, "Model", "set", MODEL)
+    out = []
+    for lp, e in Q.loops(s.fn, "self.states.values()", "$st"):
+        for pat, what in (("self.system.dae.Tf[$a] = $v", "dae.Tf"), ("self.system.TDS.Teye[$a, $b] = $v", "TDS.Teye")):
+            for st in [n_ for n_ in ast.walk(lp) if isinstance(n_, ast.Assign) and Q.match(pat, n_)]:
+                extra = [c for c in (Q.condition_chain(lp, st) or []) if hasattr(c, "test") and "t_const" not in src(c.test)
+                         and "isinstance(uid" not in src(c.test)]
+                out.append((what, st, extra))
+    return s, out
+
+
 def rule_tconst(ctx, repo):
     s = F.method(repo, "Model", "set", MODEL)
     fn = s.fn
@@ -164,6 +177,15 @@ def rule_tconst(ctx, repo):
                         ok = True
     ctx.check(ok, "C11.tconst", "Model.set", "altering a time constant updates dae.Tf and the diagonal of TDS.Teye at the state's address",
               "a changed time constant is no longer propagated to both dae.Tf and TDS.Teye", s.W())
+    # the two writes are unconditional once the state is governed by the altered parameter (no routine-state gate)
+    for lp, e in Q.loops(fn, "self.states.values()", "$st"):
+        for pat, what in (("self.system.dae.Tf[$a] = $v", "dae.Tf"), ("self.system.TDS.Teye[$a, $b] = $v", "TDS.Teye")):
+            for st, _b in Q.search(pat, lp, None) if False else [(n_, None) for n_ in ast.walk(lp) if isinstance(n_, ast.Assign) and Q.match(pat, n_)]:
+                extra = [c for c in (Q.condition_chain(lp, st) or []) if hasattr(c, "test") and "t_const" not in src(c.test)
+                         and "isinstance(uid" not in src(c.test)]
+                ctx.check(not extra, "C11.tconst", "Model.set/%s-unconditional" % what, "%s is written whenever the altered parameter is the state's time constant" % what,
+                          "the write `%s` is additionally gated by `%s`: under that condition the time constant in %s goes stale "
+                          "(eigenvalue analysis and the integrator read it)" % (src(st), src(extra[0].test) if extra else "", what), s.W(st))
     # universality: one parameter may be the time constant of several states (REGCA1.Tg, REPCA1.Tfltr ...): every one is visited
     for lp, e in Q.loops(fn, "self.states.values()", "$st"):
         ex = Q.early_exits(lp)
@@ -250,7 +272,7 @@ def rule_reset(ctx, repo):
 def run(ctx):
     ctx.rule("C11.coeff", "coefficient table == textbook base ratios (normal form), key set == NumParam flags, all applied, base selection", 13)
     ctx.rule("C11.invariant", "v == vin*k after to_array / set_pu_coeff / restore / both branches of Model.alter; Group.alter delegates", 6)
-    ctx.rule("C11.tconst", "time-constant alteration reaches dae.Tf and TDS.Teye for every governed state", 3)
+    ctx.rule("C11.tconst", "time-constant alteration reaches dae.Tf and TDS.Teye for every governed state, unconditionally", 5)
     ctx.rule("C11.export", "export reads the input-base view and refreshes the cached view first (dominance)", 5)
     ctx.rule("C11.reset", "restore before setup on reset", 3)
     ctx.assume("'takes effect in the next residual evaluation' beyond these data-flow facts is declined")
